@@ -151,6 +151,13 @@ var ErrRefused = errors.New("fakemysql: connection refused")
 // server is down and hangs until ctx ends when the server is unreachable from `from`.
 func (w *World) Dial(ctx context.Context, from, caller, server string) (net.Conn, error) {
 	w.mu.Lock()
+	if w.Dials == nil {
+		w.Dials = map[string]map[string]int{}
+	}
+	if w.Dials[server] == nil {
+		w.Dials[server] = map[string]int{}
+	}
+	w.Dials[server][caller]++
 	if w.deadCaller[caller] {
 		w.mu.Unlock()
 		time.Sleep(time.Millisecond)
